@@ -1197,11 +1197,6 @@ emittype(struct type *t)
 	}
 	fputs(" = { ", stdout);
 	for (m = t->u.structunion.members, off = 0; m;) {
-		if (m->type->kind == TYPEARRAY && m->type->incomplete) {
-			/* a flexible array member occupies no storage */
-			m = m->next;
-			continue;
-		}
 		if (t->kind == TYPESTRUCT) {
 			/* look for a subsequent member with a larger storage unit */
 			for (other = m->next; other; other = other->next) {
@@ -1217,7 +1212,8 @@ emittype(struct type *t)
 		for (sub = m->type; sub->kind == TYPEARRAY; sub = sub->base)
 			;
 		emitclass(qbetype(sub).data, sub->value);
-		if (m->type->size > sub->size)
+		/* a flexible array member has zero elements, but still contributes its alignment */
+		if (m->type->size > sub->size || m->type->kind == TYPEARRAY && m->type->incomplete)
 			printf(" %llu", m->type->size / sub->size);
 		if (t->kind == TYPESTRUCT) {
 			fputs(", ", stdout);
